@@ -171,6 +171,102 @@ def build(desc, basis=True):
     return ff.PulseSequence(H_c, H_n, np.array(desc['dt']))
 
 
+def prehistory(p, rng, n_omega=None, steps=None):
+    """Apply a random history of cache-affecting public calls (other frequency grids of the same
+    and of different length, both orders, intermediates, clean-ups, copies) to a pulse object, so
+    that a property check runs on an object with a non-trivial cache state. Returns the pulse."""
+    import copy as _copy
+    n_omega = n_omega or int(rng.integers(3, 8))
+    grids = [np.sort(rng.uniform(0.1, 7, n_omega)), np.sort(rng.uniform(0.1, 7, n_omega)),
+             np.sort(rng.uniform(0.1, 7, n_omega + 2))]
+    for _ in range(steps or int(rng.integers(1, 6))):
+        w = grids[int(rng.integers(0, 3))]
+        k = int(rng.integers(0, 12))
+        try:
+            if k == 0:
+                p.get_control_matrix(w, cache_intermediates=bool(rng.integers(0, 2)))
+            elif k == 1:
+                p.get_filter_function(w, which=str(rng.choice(['fidelity', 'generalized'])))
+            elif k == 2:
+                p.get_filter_function(w, order=2)
+            elif k == 3:
+                p.cleanup(str(rng.choice(['conservative', 'greedy', 'frequency dependent'])))
+            elif k == 4:
+                p.get_total_phases(w)
+            elif k == 5:
+                p.cache_control_matrix(w, cache_intermediates=True)
+            elif k == 6:
+                _copy.copy(p).get_filter_function(grids[int(rng.integers(0, 3))], order=2)
+            elif k == 7:
+                p.diagonalize()
+            elif k == 8:
+                ff.infidelity(p, 1/(1 + w), w)
+            elif k == 9:
+                p.cache_filter_function(w, order=2)
+            elif k == 10:
+                p.get_filter_function_derivative(w)
+            else:
+                p.total_propagator_liouville
+        except Exception:   # noqa  (a failing call is part of the history)
+            pass
+    return p
+
+
+def touch(p, rng, omega, kinds=('phases', 'cache_phases', 'ff1', 'ff2', 'cm')):
+    """one request of another kind on the grid that the check is about to use"""
+    k = str(rng.choice(list(kinds)))
+    try:
+        if k == 'phases':
+            p.get_total_phases(omega)
+        elif k == 'cache_phases':
+            p.cache_total_phases(omega)
+        elif k == 'ff1':
+            p.get_filter_function(omega, which=str(rng.choice(['fidelity', 'generalized'])))
+        elif k == 'ff2':
+            p.get_filter_function(omega, order=2)
+        elif k == 'cm':
+            p.get_control_matrix(omega, cache_intermediates=bool(rng.integers(0, 2)))
+    except Exception:   # noqa
+        pass
+    return p
+
+
+def build_used(desc, rng, prob=0.5, n_omega=None, omega=None, touch_kinds=None):
+    """a pulse built from desc that, with probability prob, has a random cache history; if omega
+    is given, half of the time one request of another kind is made on that grid at the end"""
+    p = _build_used(desc, rng, prob, n_omega)
+    if omega is not None and touch_kinds and rng.random() < 0.5:
+        touch(p, rng, omega, touch_kinds)
+    return p
+
+
+def _build_used(desc, rng, prob=0.5, n_omega=None):
+    n = len(desc['dt'])
+    if n >= 2 and rng.random() < 0.3*prob/0.5:
+        # the same pulse obtained by concatenating its two halves with pulse-correlation filter
+        # functions on some other grid
+        k = int(rng.integers(1, n))
+        halves = []
+        for sl in (slice(0, k), slice(k, n)):
+            h = dict(desc)
+            h['c_coeffs'] = np.asarray(desc['c_coeffs'])[:, sl]
+            h['n_coeffs'] = np.asarray(desc['n_coeffs'])[:, sl]
+            h['dt'] = np.asarray(desc['dt'])[sl]
+            halves.append(build(h))
+        try:
+            w = np.sort(rng.uniform(0.1, 7, n_omega or int(rng.integers(3, 8))))
+            p = ff.concatenate(halves, calc_pulse_correlation_FF=True, omega=w,
+                               which=str(rng.choice(['fidelity', 'generalized'])))
+            prehistory(p, rng, n_omega)
+            return p
+        except ValueError:
+            pass     # e.g. non-constant sensitivity of an operator: fall back to the plain pulse
+    p = build(desc)
+    if rng.random() < prob:
+        prehistory(p, rng, n_omega)
+    return p
+
+
 def basis_array(desc):
     return np.array(make_basis(desc['basis'], desc['d']))
 
